@@ -7,6 +7,17 @@ Oracle: every render equals the render of a NEW template built through the publi
 (only the munge / var / default operations replayed); the caller's mapping, sequences and keyword values are deep-equal
 before and after every call; defaults unchanged by calls; a pickled template has no compiled data; a file-based template
 pickles its file name, not the content.
+Inputs of a render are PARTIAL namespaces: every name a source uses (also the ones of the base mapping) is independently bound
+or left unbound in each render, bound through keyword / mapping / client attribute / defaults, and bound to values of different
+types from one render to the next (VALUES); expressions on optional names occur in every tag that takes one (var, if, elif,
+unless, in, let, with, call, raise, return, sort_expr, reverse_expr), batch parameters given by name, var options on polymorphic
+values, the `_` idioms, a template that re-enters itself with another namespace, sub-templates that live as long as the
+template under test.  Per source there are render-only histories (the same compiled template with changing namespaces); the
+template class is HTML or a subclass with pass-through security guards (restricted evaluator).
+Extra oracles: (a) results of NEW templates recorded during the run are recomputed at the end in another order (a new template
+must not depend on what other templates rendered before: class / module level state); (b) optional-name idioms whose expected
+output is computed by a Python reference, rendered over a sequence of namespaces on one template object and as the body of a
+dtml-in over the same namespaces as mappings.
 Correspondence: the Lean state machine (op "tmpl") vs the real object after every operation: raw, globals, _vars, presence
 of compiled data; the model's (program, defaults, variables, inputs) of each call determine the same output.
 """
@@ -14,6 +25,8 @@ import copy
 import json
 import os
 import pickle
+import re
+import sys
 import tempfile
 
 import common
@@ -29,9 +42,45 @@ SOURCES = [
     '<dtml-in seq sort="rank" prefix=p><dtml-var p_index><dtml-var name></dtml-in><dtml-in keys><dtml-var sequence-item>;</dtml-in>',
     '<dtml-var sub> <dtml-call expr="log(k)"><dtml-var expr="len(seq)"> <dtml-var a null="NULL" missing="M">',
     '<dtml-in seq sort_expr="keys[k]" reverse_expr="k2 == 2"><dtml-if sequence-start>[</dtml-if><dtml-var name><dtml-if sequence-end>]</dtml-if></dtml-in>',
+    # --- expressions on names that a namespace may or may not bind, one per kind of tag that evaluates expressions
+    '<dtml-try>Hi <dtml-var expr="u * 2">!<dtml-except NameError>Hi nobody!<dtml-except TypeError>TE</dtml-try>'
+    '<dtml-in expr="rows or ()"> <dtml-var sequence-item></dtml-in>',
+    '<dtml-if expr="u"><dtml-var u>?<dtml-elif expr="v">V<dtml-var v><dtml-else>none</dtml-if><dtml-unless expr="rows">no rows</dtml-unless>',
+    '<dtml-try><dtml-let x="u" y="v"><dtml-var x>/<dtml-var y></dtml-let><dtml-except NameError>NE</dtml-try>'
+    '<dtml-let z=v>,<dtml-var z></dtml-let>',
+    '<dtml-with expr="rec2"><dtml-var name></dtml-with> <dtml-call expr="log(u)">done',
+    'before<dtml-if k><dtml-return expr="v"></dtml-if>after <dtml-var u missing="-">',
+    '<dtml-if k><dtml-raise expr="exc">msg <dtml-var u missing=""></dtml-raise></dtml-if>fine<dtml-comment><dtml-var u></dtml-comment>',
+    '<dtml-in seq sort_expr="sk" reverse_expr="rv"><dtml-var name></dtml-in>',
+    # --- batch parameters given by name
+    '<dtml-in seq size=sz orphan=orp overlap=ov start=k2><dtml-var rank><dtml-if sequence-end>|'
+    '<dtml-var next-sequence-start-index missing=x></dtml-if></dtml-in>',
+    '<dtml-in seq start=k2 end=en><dtml-var name></dtml-in><dtml-in rows previous size=sz start=k2>P'
+    '<dtml-var previous-sequence-start-index></dtml-in><dtml-in rows next size=sz start=k2>N<dtml-var next-sequence-start-index></dtml-in>',
+    # --- the options of dtml-var on a value whose type changes from render to render
+    '<dtml-var v null="NULL" missing="MISS">|<dtml-var v size=4 etc="~" missing="">|<dtml-var v fmt=collection-length missing="">|'
+    '<dtml-var v upper html_quote missing="">|<dtml-var v fmt="%s!" missing="">',
+    '<dtml-var v thousands_commas missing=""> <dtml-var u capitalize missing=""> <dtml-var u url_quote missing=""> '
+    '<dtml-try><dtml-var expr="v" fmt="%r"><dtml-except NameError>nov</dtml-try>&dtml.missing-u;',
+    # --- the namespace object in expressions
+    '<dtml-if expr="_.has_key(\'u\')"><dtml-var expr="_[\'u\']"><dtml-else>anon</dtml-if> '
+    '<dtml-try><dtml-var expr="_.getitem(\'v\', 0)"><dtml-except KeyError>nov</dtml-try>',
+    # --- the template renders itself with another namespace while it is being rendered
+    '<dtml-try><dtml-var expr="u"><dtml-except NameError>NU</dtml-try>(<dtml-if d><dtml-var expr="me(None, d=0)"></dtml-if>)'
+    '<dtml-try><dtml-var expr="v"><dtml-except NameError>NV</dtml-try>',
+    # --- one expression evaluated for records with different keys within one render
+    '<dtml-in rows mapping><dtml-try><dtml-var expr="x + 1"><dtml-except NameError>-</dtml-try>,'
+    '<dtml-if expr="_.has_key(\'y\')">Y<dtml-var y><dtml-else>n</dtml-if>;<dtml-else>no rows</dtml-in>',
+    # --- the same expression text in several tags and in a sub-template; callables and cached conditions
+    '<dtml-try><dtml-var expr="u"><dtml-except>E1</dtml-try><dtml-var sub2><dtml-try><dtml-var expr="u"><dtml-except>E2</dtml-try>'
+    '<dtml-var sub>',
+    '<dtml-var f missing="nof"> <dtml-if f>T<dtml-var f><dtml-else>F</dtml-if><dtml-unless f>U</dtml-unless>'
+    '<dtml-try><dtml-var expr="f()"><dtml-except>notcallable</dtml-try>',
 ]
+N_OLD_SOURCES = 10
 KEYS = ['', 'name', 'rank', 'name/cmp/desc', 'rank,name']
-DICT_KEYS = ['a', 'b', 'n', '_p', 'k']
+DICT_KEYS = ['a', 'b', 'n', '_p', 'k', 'u', 'v', 'sz', 'd', 'f']
+BASE_NAMES = ['seq', 'keys', 'rec', 'sub', 'sub2', 'log']
 
 
 class Item:
@@ -50,26 +99,161 @@ class Item:
     __hash__ = None
 
 
-def base_inputs(calls):
-    from DocumentTemplate import HTML
-    return {'seq': [Item('b', 3), Item('c', 1), Item('a', 2), Item('d', 1)], 'keys': list(KEYS), 'rec': Item('r', 0),
-            'sub': HTML('(sub <dtml-var k>)'), 'log': calls.append}
+class Fn:
+    """a callable value (name lookups call it); logs"""
+
+    def __init__(self, calls, tag):
+        self.calls, self.tag = calls, tag
+
+    def __call__(self):
+        self.calls.append('fn ' + self.tag)
+        return 'called-' + self.tag
+
+    def __repr__(self):
+        return 'Fn(%r)' % self.tag
+
+    def __deepcopy__(self, memo):
+        return self
+
+
+class Client:
+    """the `client` argument: values are looked up with getattr"""
+
+    def __init__(self, attrs):
+        self.__dict__.update(attrs)
+
+    def __repr__(self):
+        return 'Client(%r)' % sorted(self.__dict__.items(), key=lambda e: e[0])
+
+
+# Values of the optional names.  An input is a pair [name, code]; the code selects the value (so inputs stay the model's
+# (String x Int) pairs).  Names without a table are integers (the code itself).  Every call gets new objects.
+VALUES = {
+    'u': [lambda c: 'alice', lambda c: 'bob', lambda c: '', lambda c: 3, lambda c: None, lambda c: 'x<y'],
+    'v': [lambda c: 0, lambda c: 7, lambda c: 1234567, lambda c: 'text <b>', lambda c: '', lambda c: None,
+          lambda c: [1, 2, 3], lambda c: 2.5, lambda c: (), lambda c: 'seven'],
+    'rows': [lambda c: [1, 2], lambda c: (), lambda c: ['x', 'y', 'z'], lambda c: (3,),
+             lambda c: [{'x': 1}, {'y': 2}, {'x': 5, 'y': 6}], lambda c: None, lambda c: [{'y': 0}, {'x': 2}, {}],
+             lambda c: [{'x': 1, 'y': 1}, {}]],
+    'sz': [lambda c: 1, lambda c: 2, lambda c: 3, lambda c: '2'],
+    'en': [lambda c: 2, lambda c: 3, lambda c: 4, lambda c: '3'],
+    'orp': [lambda c: 0, lambda c: 1, lambda c: 2],
+    'ov': [lambda c: 0, lambda c: 1],
+    'd': [lambda c: 0, lambda c: 1],
+    'sk': [lambda c: '', lambda c: 'name', lambda c: 'rank', lambda c: 'rank,name'],
+    'rv': [lambda c: 0, lambda c: 1],
+    'exc': [lambda c: ValueError, lambda c: 'KeyError', lambda c: 'Oops', lambda c: LookupError],
+    'rec2': [lambda c: Item('q', 9), lambda c: Item('z', 8), lambda c: {'name': 'dictname'}],
+    'f': [lambda c: Fn(c, 'one'), lambda c: 'plain', lambda c: 0, lambda c: Fn(c, 'two'), lambda c: None],
+}
+INT_NAMES = {'k': (0, len(KEYS) - 1), 'k2': (1, 3), 'a': (0, 4), 'b': (0, 4), 'n': (0, 4)}
+OPTIONAL = sorted(VALUES) + ['a', 'b', 'n']
+
+
+def names_used(src):
+    return {n for n in list(VALUES) + list(INT_NAMES) + BASE_NAMES if re.search(r'(?<![\w-])%s(?![\w-])' % n, src)}
+
+
+USED = [names_used(s) for s in SOURCES]
+
+
+def decode(name, code, calls):
+    tbl = VALUES.get(name)
+    if tbl is None:
+        return code
+    return tbl[code % len(tbl)](calls)
+
+
+def type_of(name, code):
+    return type(decode(name, code, [])).__name__
+
+
+_classes = {}
+
+
+def template_classes():
+    """HTML, and HTML with pass-through security guards (expressions then run through the restricted evaluator)"""
+    if not _classes:
+        from DocumentTemplate import HTML
+
+        class GuardedHTML(HTML):
+            def guarded_getattr(self, inst, name, *default):
+                return getattr(inst, name, *default)
+
+            def guarded_getitem(self, ob, index):
+                return ob[index]
+
+        GuardedHTML.__module__ = __name__
+        GuardedHTML.__qualname__ = 'GuardedHTML'
+        setattr(sys.modules[__name__], 'GuardedHTML', GuardedHTML)      # picklable by reference
+        _classes[0] = HTML
+        _classes[1] = GuardedHTML
+    return _classes
+
+
+CLASS_NAMES = ['HTML', 'HTML subclass with pass-through guarded_getattr / guarded_getitem']
+
+
+def new_subs(cls):
+    """the sub-templates handed to a template under test; they live as long as it does"""
+    return {'sub': cls('(sub <dtml-var k missing="nok"><dtml-try><dtml-var expr="u"><dtml-except NameError>nou</dtml-try>)'),
+            'sub2': cls('<dtml-let u=k>[<dtml-var expr="u">]</dtml-let>')}
+
+
+def base_inputs(calls, subs):
+    ns = {'seq': [Item('b', 3), Item('c', 1), Item('a', 2), Item('d', 1)], 'keys': list(KEYS), 'rec': Item('r', 0), 'log': calls.append}
+    ns.update(subs)
+    return ns
+
+
+NOT_DATA = ('sub', 'sub2', 'log', 'me')
 
 
 def gen_dict(r, n=2):
     return [[k, r.randint(0, 4)] for k in r.sample(DICT_KEYS, r.randint(0, n))]
 
 
-def gen_inputs(r):
-    return [['k', r.randint(0, len(KEYS) - 1)], ['k2', r.randint(1, 3)]] + [[k, v] for k, v in gen_dict(r, 1) if k not in ('k', '_p')]
+def gen_value(r, name):
+    if name in INT_NAMES:
+        lo, hi = INT_NAMES[name]
+        return r.randint(lo, hi)
+    return r.randrange(len(VALUES[name]))
 
 
-def gen_history(r, maxlen):
+def gen_inputs(r, src=None, p_bind=0.6):
+    """a partial namespace for source `src`: [key, code] pairs; key = name (keyword argument), 'm:name' (in the mapping),
+    'c:name' (attribute of the client), '-name' (left out of the base mapping)"""
+    used = USED[src] if src is not None else set()
+    inp = []
+
+    def bind(name):
+        c = r.random()
+        where = '' if c < 0.7 else ('m:' if c < 0.85 else 'c:')
+        inp.append([where + name, gen_value(r, name)])
+    for name in ('k', 'k2'):
+        if r.random() < 0.9:
+            bind(name)
+    for name in OPTIONAL:
+        if name in used:
+            if r.random() < p_bind:
+                bind(name)
+        elif r.random() < 0.03:
+            bind(name)
+    for name in BASE_NAMES:
+        if name in used and r.random() < 0.07:
+            inp.append(['-' + name, 0])
+    return inp
+
+
+NON_RENDER = ('pickle', 'deepcopy', 'cook')
+
+
+def gen_history(r, maxlen, src):
     ops = []
     for _ in range(r.randint(2, maxlen)):
         c = r.random()
         if c < 0.45:
-            ops.append(['render', gen_inputs(r)])
+            ops.append(['render', gen_inputs(r, src)])
         elif c < 0.55:
             ops.append(['pickle'])
         elif c < 0.62:
@@ -77,21 +261,36 @@ def gen_history(r, maxlen):
         elif c < 0.68:
             ops.append(['cook'])
         elif c < 0.78:
-            ops.append(['mungeSrc', r.randrange(len(SOURCES))])
+            src = r.randrange(len(SOURCES))
+            ops.append(['mungeSrc', src])
         elif c < 0.83:
             ops.append(['mungeVars', gen_dict(r), gen_dict(r)])
         elif c < 0.88:
-            ops.append(['mungeBoth', r.randrange(len(SOURCES)), gen_dict(r), gen_dict(r)])
+            src = r.randrange(len(SOURCES))
+            ops.append(['mungeBoth', src, gen_dict(r), gen_dict(r)])
         elif c < 0.94:
             ops.append(['var', gen_dict(r)])
         else:
             ops.append(['default', gen_dict(r)])
-    ops.append(['render', gen_inputs(r)])
+    ops.append(['render', gen_inputs(r, src)])
     return ops
 
 
+def gen_streak(r, src, length=8):
+    """the same compiled template rendered again and again with other partial namespaces (at most one operation that
+    recompiles in between)"""
+    p = r.choice((0.35, 0.5, 0.7))
+    ops = [['render', gen_inputs(r, src, p)] for _ in range(r.randint(5, length))]
+    if r.random() < 0.3:
+        ops[r.randrange(1, len(ops) - 1)] = [r.choice(NON_RENDER)]
+    return ops
+
+
+ADDR = re.compile(r' at 0x[0-9a-fA-F]+')
+
+
 def canon(v):
-    return repr(v)
+    return ADDR.sub('', repr(v))
 
 
 def apply_persistent(t, op):
@@ -109,53 +308,101 @@ def apply_persistent(t, op):
         t.default(**dict(op[1]))
 
 
-def call(t, inputs):
+def call(t, inputs, subs=None):
+    """one call t(client, mapping, **kw) with the namespace that `inputs` describes; returns the outcome, the call log and
+    what the call changed in the caller's data"""
     calls = []
-    ns = base_inputs(calls)
-    kw = dict(inputs)
-    snap_ns = copy.deepcopy({k: v for k, v in ns.items() if k not in ('sub', 'log')})
-    snap_kw = copy.deepcopy(kw)
+    if subs is None:
+        subs = new_subs(type(t))
+    ns = base_inputs(calls, subs)
+    ns['me'] = t
+    kw, attrs = {}, {}
+    for key, code in inputs:
+        if key.startswith('-'):
+            ns.pop(key[1:], None)
+        elif key.startswith('m:'):
+            ns[key[2:]] = decode(key[2:], code, calls)
+        elif key.startswith('c:'):
+            attrs[key[2:]] = decode(key[2:], code, calls)
+        else:
+            kw[key] = decode(key, code, calls)
+    client = Client(attrs) if attrs else None
+    snap_ns = canon(copy.deepcopy({k: v for k, v in ns.items() if k not in NOT_DATA}))
+    snap_kw = canon(copy.deepcopy(kw))
+    snap_client = canon(copy.deepcopy(attrs))
+    names_ns, names_kw = sorted(ns), sorted(kw)
     try:
-        out = {'ok': t(None, ns, **kw)}
+        out = {'ok': t(client, ns, **kw)}
     except Exception as e:  # noqa
-        out = {'raise': '%s: %s' % (type(e).__name__, str(e)[:120])}
+        out = {'raise': '%s: %s' % (type(e).__name__, ADDR.sub('', str(e))[:120])}
     changed = []
-    if canon({k: v for k, v in ns.items() if k not in ('sub', 'log')}) != canon(snap_ns):
+    if canon({k: v for k, v in ns.items() if k not in NOT_DATA}) != snap_ns or sorted(ns) != names_ns:
         changed.append('the call mapping / its sequences were modified')
-    if canon(kw) != canon(snap_kw):
+    if canon(kw) != snap_kw or sorted(kw) != names_kw:
         changed.append('the keyword values were modified')
+    if client is not None and canon(client.__dict__) != snap_client:
+        changed.append('the client object was modified')
     return out, calls, changed
 
 
-def run_history(init, ops, model_states, res):
+def same(a, b):
+    """outcomes and call logs equal (values returned by dtml-return may be any object)"""
+    return a == b and canon(a) == canon(b)
+
+
+def bound_names(inputs):
+    b = {}
+    for key, code in inputs:
+        if not key.startswith('-'):
+            name = key.split(':')[-1]
+            b[name] = type_of(name, code)
+    return b
+
+
+def run_history(init, ops, model_states, res, cls_idx=0, fresh_log=None):
     """returns list of problems (oracle), list of mismatches (correspondence)"""
-    from DocumentTemplate import HTML
+    HTML = template_classes()[cls_idx]
     oracle, corr = [], []
     s0, m0, kw0 = init
     t = HTML(SOURCES[s0], dict(m0), **dict(kw0))
+    subs = new_subs(HTML)
     # what "the same source and defaults" are, by the documented meaning of munge / var / default
     cur = {'src': s0, 'm': m0, 'kw': kw0, 'later': []}
+    prev = None           # names bound by the previous render of the same compiled program
     for idx, op in enumerate(ops):
         k = op[0]
         g_before = copy.deepcopy(t.globals)
         if k == 'render':
-            out, calls, changed = call(t, op[1])
+            out, calls, changed = call(t, op[1], subs)
             for c in changed:
                 oracle.append('op %d: %s' % (idx, c))
-            if t.globals != g_before:
+            if t.globals != g_before or canon(t.globals) != canon(g_before):
                 oracle.append('op %d: rendering modified the template\'s defaults' % idx)
             # a NEW template from the same source and defaults
             f = HTML(SOURCES[cur['src']], dict(cur['m']), **dict(cur['kw']))
             for po in cur['later']:
                 apply_persistent(f, po)
             fout, fcalls, _ = call(f, op[1])
-            if (out, calls) != (fout, fcalls):
+            if fresh_log is not None:
+                fresh_log.append((cls_idx, cur['src'], cur['m'], cur['kw'], list(cur['later']), op[1], (fout, fcalls)))
+            if not same((out, calls), (fout, fcalls)):
                 oracle.append('op %d: render gives %r (calls %r) but a new template built from the same source and defaults '
                               'gives %r (calls %r)' % (idx, out, calls, fout, fcalls))
             # twice in a row with equal inputs
-            out2, calls2, _ = call(t, op[1])
-            if (out2, calls2) != (out, calls):
+            out2, calls2, _ = call(t, op[1], subs)
+            if not same((out2, calls2), (out, calls)):
                 oracle.append('op %d: two renders with equal inputs differ: %r vs %r' % (idx, out, out2))
+            now = bound_names(op[1])
+            if prev is not None:
+                res.count('render after a render of the same compiled template')
+                if set(prev) - set(now):
+                    res.count('... a name bound before is now unbound')
+                if set(now) - set(prev):
+                    res.count('... a name unbound before is now bound')
+                if any(prev[n_] != now[n_] for n_ in now if n_ in prev):
+                    res.count('... a name is bound to a value of another type')
+            prev = now
+            res.count('outcome=' + ('ok' if 'ok' in out else out['raise'].split(':')[0]))
         elif k == 'pickle':
             data = pickle.dumps(t)
             t = pickle.loads(data)
@@ -175,6 +422,8 @@ def run_history(init, ops, model_states, res):
                 cur['src'], cur['m'], cur['kw'], cur['later'] = op[1], op[2], op[3], []
             else:
                 cur['later'].append(op)
+        if k in NON_RENDER or k.startswith('munge'):
+            prev = None
         # correspondence with the model's state after this op
         if model_states is not None:
             m = model_states[idx]
@@ -192,9 +441,138 @@ def run_history(init, ops, model_states, res):
                 f.globals = dict(g)
                 f._vars = dict(v)
                 fout, fcalls, _ = call(f, i)
-                if (fout, fcalls) != (out, calls):
+                if not same((fout, fcalls), (out, calls)):
                     corr.append({'op': idx, 'impl': out, 'model': fout, 'what': 'render(parse(source %d), defaults, vars, inputs)' % p})
     return oracle, corr
+
+
+def recheck_fresh(res, fresh_log, r, cap):
+    """results of NEW templates must not depend on when they are computed (what OTHER templates rendered before): recompute a
+    sample of the recorded ones, in another order"""
+    sample = fresh_log if len(fresh_log) <= cap else r.sample(fresh_log, cap)
+    for cls_idx, src, m, kw, later, inputs, then in reversed(sample):
+        HTML = template_classes()[cls_idx]
+        f = HTML(SOURCES[src], dict(m), **dict(kw))
+        for po in later:
+            apply_persistent(f, po)
+        fout, fcalls, _ = call(f, inputs)
+        res.evaluations += 1
+        res.count('new template recomputed later')
+        if not same((fout, fcalls), then):
+            res.oracle_fail.append({'case': {'class': CLASS_NAMES[cls_idx], 'source': SOURCES[src], 'mapping': m, 'kw': kw,
+                                             'then': later, 'inputs': inputs},
+                                    'what': 'a new template built from this source and these defaults gave %r when it was first '
+                                            'computed and gives %r after other templates have been rendered' % (then, (fout, fcalls))})
+
+
+# ---------------------------------------------------------------------------------------------------------------------
+# optional-name idioms with a reference written in Python
+
+def _i_try_var(x):
+    return ('<dtml-try><dtml-var expr="%s + 1"><dtml-except NameError>-</dtml-try>' % x,
+            lambda ns, log: str(ns[x] + 1) if x in ns else '-')
+
+
+def _i_has_key(x):
+    return ('<dtml-if expr="_.has_key(\'%s\')">Y<dtml-var %s><dtml-else>n</dtml-if>' % (x, x),
+            lambda ns, log: 'Y%d' % ns[x] if x in ns else 'n')
+
+
+def _i_missing(x):
+    return ('<dtml-var %s missing="M">' % x, lambda ns, log: str(ns[x]) if x in ns else 'M')
+
+
+def _i_if(x):
+    return ('<dtml-if %s>T<dtml-else>F</dtml-if>' % x, lambda ns, log: 'T' if ns.get(x) else 'F')
+
+
+def _i_unless(x):
+    return ('<dtml-unless %s>U</dtml-unless>' % x, lambda ns, log: '' if ns.get(x) else 'U')
+
+
+def _i_if_expr(x):
+    return ('<dtml-try><dtml-if expr="%s > 1">big<dtml-elif expr="%s">one<dtml-else>zero</dtml-if><dtml-except NameError>-</dtml-try>' % (x, x),
+            lambda ns, log: '-' if x not in ns else ('big' if ns[x] > 1 else ('one' if ns[x] else 'zero')))
+
+
+def _i_let(x):
+    return ('<dtml-try><dtml-let z="%s * 2"><dtml-var z></dtml-let><dtml-except NameError>-</dtml-try>' % x,
+            lambda ns, log: str(ns[x] * 2) if x in ns else '-')
+
+
+def _i_in(x):
+    return ('<dtml-try><dtml-in expr="(%s, %s)"><dtml-var sequence-item></dtml-in><dtml-except NameError>-</dtml-try>' % (x, x),
+            lambda ns, log: '%d%d' % (ns[x], ns[x]) if x in ns else '-')
+
+
+def _i_call(x):
+    def ref(ns, log):
+        if x in ns:
+            log.append(ns[x])
+            return ''
+        return '-'
+    return ('<dtml-try><dtml-call expr="log(%s)"><dtml-except NameError>-</dtml-try>' % x, ref)
+
+
+def _i_with(x):
+    return ('<dtml-try><dtml-with expr="{\'w\': %s}" mapping><dtml-var w></dtml-with><dtml-except NameError>-</dtml-try>' % x,
+            lambda ns, log: str(ns[x]) if x in ns else '-')
+
+
+def _i_unless_expr(x):
+    return ('<dtml-try><dtml-unless expr="%s">U</dtml-unless><dtml-except NameError>-</dtml-try>' % x,
+            lambda ns, log: '-' if x not in ns else ('' if ns[x] else 'U'))
+
+
+def _i_two(x, y='r'):
+    # an expression on two names, the second one only needed when the first is false
+    return ('<dtml-try><dtml-var expr="%s or %s"><dtml-except NameError>-</dtml-try>' % (x, y),
+            lambda ns, log: '-' if x not in ns else (str(ns[x]) if ns[x] else (str(ns[y]) if y in ns else '-')))
+
+
+IDIOMS = [_i_try_var, _i_has_key, _i_missing, _i_if, _i_unless, _i_if_expr, _i_let, _i_in, _i_call, _i_with, _i_unless_expr, _i_two]
+IDIOM_NAMES = ['p', 'q', 'r']
+
+
+def idiom_check(res, r, n):
+    classes = template_classes()
+    for case in range(n):
+        parts = [r.choice(IDIOMS)(r.choice(IDIOM_NAMES)) for _ in range(r.randint(1, 4))]
+        body = '|'.join(p[0] for p in parts)
+        nss = [{x: r.randint(0, 3) for x in IDIOM_NAMES if r.random() < 0.5} for _ in range(r.randint(3, 6))]
+        cls_idx = case % 2
+        res.evaluations += 1
+        res.count('idiom templates')
+        res.nt(('idiom', body))
+
+        def expect(ns, log):
+            return '|'.join(p[1](ns, log) for p in parts)
+        # (1) the same template object, one namespace after the other
+        t = classes[cls_idx](body)
+        for j, ns in enumerate(nss):
+            want_log, got_log = [], []
+            want = expect(ns, want_log)
+            try:
+                got = t(None, {'log': got_log.append}, **dict(ns))
+            except Exception as e:  # noqa
+                got = '%s: %s' % (type(e).__name__, e)
+            if (got, got_log) != (want, want_log):
+                res.oracle_fail.append({'case': {'class': CLASS_NAMES[cls_idx], 'source': body, 'renders with keyword arguments': nss[:j + 1]},
+                                        'what': 'render %d gives %r (log(...) calls %r); by the meaning of the tags it is %r (calls %r)'
+                                                % (j, got, got_log, want, want_log)})
+                break
+        # (2) the namespaces as the records of one dtml-in ... mapping
+        src = '<dtml-in rows mapping>%s;</dtml-in>' % body
+        want_log, got_log = [], []
+        want = ''.join(expect(ns, want_log) + ';' for ns in nss)
+        try:
+            got = classes[cls_idx](src)(None, {'log': got_log.append}, rows=[dict(ns) for ns in nss])
+        except Exception as e:  # noqa
+            got = '%s: %s' % (type(e).__name__, e)
+        if (got, got_log) != (want, want_log):
+            res.oracle_fail.append({'case': {'class': CLASS_NAMES[cls_idx], 'source': src, 'rows': nss},
+                                    'what': 'the loop gives %r (log(...) calls %r); by the meaning of the tags it is %r (calls %r)'
+                                            % (got, got_log, want, want_log)})
 
 
 def file_template_check(res):
@@ -227,59 +605,91 @@ def file_template_check(res):
         os.rmdir(d)
 
 
-def check(res, r, n, maxlen, have_driver):
+def show_case(init, ops, cls_idx):
+    return {'class': CLASS_NAMES[cls_idx], 'init': [SOURCES[init[0]], init[1], init[2]],
+            'ops': [[o[0]] + [SOURCES[x] if (o[0] in ('mungeSrc', 'mungeBoth') and j == 0) else x for j, x in enumerate(o[1:])] for o in ops],
+            'inputs': "[key, code]: key = name (keyword argument) | 'm:name' (in the mapping) | 'c:name' (client attribute) | "
+                      "'-name' (left out of the base mapping); code = index into props.c17.VALUES[name], or the integer itself"}
+
+
+def check(res, r, n, maxlen, have_driver, streaks=0, idioms=0):
     hist = []
-    for _ in range(n):
+    for j in range(n):
         init = [r.randrange(len(SOURCES)), gen_dict(r), gen_dict(r)]
-        hist.append((init, gen_history(r, maxlen)))
+        hist.append((init, gen_history(r, maxlen, init[0]), j % 3 == 2, 'random'))
+    for rep in range(streaks):
+        for src in range(len(SOURCES)):
+            if SOURCES[src] == '':
+                continue
+            init = [src, gen_dict(r, 1) if r.random() < 0.4 else [], gen_dict(r, 1) if r.random() < 0.4 else []]
+            hist.append((init, gen_streak(r, src, min(maxlen, 8)), (rep + src) % 2 == 1, 'streak'))
     states = [None] * len(hist)
     if have_driver:
-        resp = common.run_driver([{'op': 'tmpl', 'init': init, 'ops': ops} for init, ops in hist])
+        resp = common.run_driver([{'op': 'tmpl', 'init': init, 'ops': ops} for init, ops, _, _ in hist])
         states = []
         for rp in resp:
             if 'ok' not in rp:
                 res.harness_errors.append('driver: %r' % (rp,))
                 return
             states.append(rp['ok'])
-    for (init, ops), ms in zip(hist, states):
+    fresh_log = []
+    for (init, ops, guarded, kind), ms in zip(hist, states):
         res.evaluations += 1
-        oracle, corr = run_history(init, ops, ms, res)
-        res.nt(tuple(o[0] for o in ops))
+        cls_idx = 1 if guarded else 0
+        oracle, corr = run_history(init, ops, ms, res, cls_idx, fresh_log)
+        res.nt((init[0] if kind == 'streak' else -1, cls_idx) + tuple(o[0] for o in ops))
+        res.count('history=' + kind)
+        res.count('class=' + ('guarded' if guarded else 'HTML'))
         for o in ops:
             res.count('op=' + o[0])
+            if o[0] == 'render':
+                for key, _ in o[1]:
+                    res.count('binding=' + ('keyword' if ':' not in key and key[0] != '-' else
+                                            {'m': 'mapping', 'c': 'client', '-': 'base name left out'}[key[0]]))
         for w in oracle:
-            res.oracle_fail.append({'case': {'init': [SOURCES[init[0]], init[1], init[2]],
-                                             'ops': [[o[0]] + [SOURCES[x] if (o[0] in ('mungeSrc', 'mungeBoth') and j == 0) else x
-                                                               for j, x in enumerate(o[1:])] for o in ops]}, 'what': w})
+            res.oracle_fail.append({'case': show_case(init, ops, cls_idx), 'what': w})
         if ms is not None:
             res.corr_checked += len(ops)
             for c in corr:
-                res.corr_mismatch.append({'case': {'init': init, 'ops': ops}, 'impl': c.get('impl'), 'model': c.get('model'),
+                res.corr_mismatch.append({'case': {'init': init, 'ops': ops, 'class': cls_idx}, 'impl': c.get('impl'), 'model': c.get('model'),
                                           'diff': 'after op %d %s' % (c['op'], c.get('what', 'object state'))})
+    recheck_fresh(res, fresh_log, r, 600 if streaks else 300)
+    if idioms:
+        idiom_check(res, r, idioms)
     file_template_check(res)
 
 
 def run(res, tier, have_driver):
     r = common.rng('C17')
     res.rule = ('random histories over render / pickle / deepcopy / cook / munge(source) / munge(mapping, **kw) / munge(both) / var / '
-                'default on 10 sources (all tags; sort_expr and reverse_expr depending on the inputs; the empty source); every render '
-                'compared with a new template built through the public API from the same source and defaults, and repeated; '
-                'caller data deep-compared; file-based template; non-trivial = distinct operation sequences')
+                'default on %d sources (all tags; sort_expr and reverse_expr depending on the inputs; the empty source; expressions '
+                'on optional names in var / if / elif / unless / in / let / with / call / raise / return / sort_expr / reverse_expr; '
+                'batch parameters by name; var options on values of changing type; `_` idioms; self re-entrance; records with '
+                'different keys; repeated expression texts incl. long-lived sub-templates; callables), plus render-only histories '
+                'per source (same compiled template, changing namespaces); inputs are PARTIAL namespaces: each used name '
+                'independently bound / unbound per render, through keyword, mapping, client attribute or defaults, base names left '
+                'out, values of several types; template class HTML or HTML with pass-through guards (restricted evaluator); every '
+                'render compared with a new template built through the public API from the same source and defaults, and repeated; '
+                'caller data (mapping, keywords, client) deep-compared; results of new templates recomputed later in another order; '
+                'optional-name idioms against a Python reference, as consecutive renders of one template and as records of one '
+                'dtml-in mapping; file-based template; non-trivial = distinct (kind, class, operation sequence) and idiom templates'
+                % len(SOURCES))
     if tier == 'quick':
-        check(res, r, 400, 8, have_driver)
+        check(res, r, 700, 8, have_driver, streaks=8, idioms=300)
     else:
-        check(res, r, 6000, 14, have_driver)
+        check(res, r, 8000, 14, have_driver, streaks=60, idioms=3000)
     res.assumptions += ['compiling and rendering a compiled program are parameters of the state-machine model (Engine.parse / '
                         'Engine.exec); that rendering a compiled program is a function of (program, defaults, variables, inputs) '
                         'only — i.e. that compiled tags keep no per-render state that a later render reads — is what the oracle '
-                        'tests (history vs new template) and what C18\'s shared-write monitor lists']
+                        'tests (history vs new template, with namespaces that bind different sets of names) and what C18\'s '
+                        'shared-write monitor lists']
     res.partial.append('purity of Engine.exec (no state kept on compiled tags between renders) is checked by the oracle, not proved')
 
 
 def search_more(res, tier):
     r = common.rng('C17-more')
     res2 = common.Result('C17')
-    check(res2, r, 2500, 12, False)
+    check(res2, r, 2500, 12, False, streaks=20, idioms=1000)
     return res2.oracle_fail
 
 
